@@ -17,7 +17,7 @@ func init() {
 			rulePVGo(r)
 			ruleNoInPlaceValueMutation(r, []string{enginePkg, metricPkg}, 3)
 			ruleTemplatePerStage(r) // a template compiled for one evaluation is never reused by the next (its accessors are bound to the first stage instance)
-			ruleDistinct(r)          // the labels of distinct are examined in the order they were written
+			ruleDistinct(r)         // the labels of distinct are examined in the order they were written
 		},
 	})
 }
